@@ -73,7 +73,7 @@ def run(ctx):
     ctx.clause = ("function symbols and variable symbols get the same re-lookup treatment (symbol still present => "
                   "not removed; default-version re-export rule) in both the declared and the unreferenced-symbol "
                   "regions")
-    ctx.rules = ["R-SIBSYM"]
+    ctx.rules = ["R-SIBSYM", "R-VERLOOKUP"]
     P = ctx.program(UNITS)
     f = P.fn1("abigail::comparison::corpus_diff::priv::ensure_lookup_tables_populated")
     ctx.analysed(f)
@@ -114,5 +114,7 @@ def run(ctx):
                    "kind of symbol is re-looked-up differently from the other" % (
                        i, sa[i] if i < len(sa) else "<end>", f.loc(na), sb[i] if i < len(sb) else "<end>", f.loc(nb)))
     ctx.floor("R-SIBSYM", "symbol-lookup events", n_ev, 30)
+    from rules import verlookup_rule
+    verlookup_rule.check(ctx, ctx.program(verlookup_rule.UNITS))
     ctx.assume("the set arithmetic over the runtime symbol sets is not decided; the added/deleted asymmetry "
                "(only additions get the unversioned->default rule) is by design")
